@@ -49,7 +49,7 @@ func (d *svcapiDom) Gen(r *gen.R, tier string, emit func(string)) {
 			act := r.Pick([]string{"custom:foo", "custom:foo", "custom:a.b", "custom:change", "custom:x y", "custom:", "change", "reset", "reaccess", "create", "delete", "query", "resource"})
 			emit(wire.Line("with", rid, act))
 		case 5, 6:
-			subj := r.Pick([]string{"auth.svc.login", "auth.svc.model.a.relogin", "auth", "auth.>", "auth.*.relogin", "auth.svc.$method", "", "auth..x", "auth.svc.x y", "auth.svc.", "a?b", "auth.svc.re?login"})
+			subj := r.Pick([]string{"auth.svc.login", "auth.svc.model.a.relogin", "auth", "auth.>", "auth.*.relogin", "auth.svc.$method", "", "auth..x", "auth.svc.x y", "auth.svc.", "a?b", "auth.svc.re?login", "auth.a*b", "auth.a>", "auth.$", "auth.x.>y"})
 			k := r.Intn(3)
 			args := []string{"tokenreset", subj, strconv.Itoa(k)}
 			for j := 0; j < k; j++ {
